@@ -4,17 +4,17 @@ from .kernel import (AnchorMissing, ExprBuilder, Loc, access_path, callee_name,
 from . import families as fam
 
 EXPLANATION = (
-    "Decides structural necessary conditions of SQ integrity on every CFG path of "
-    "Submissions::add / Shared::unsubmitted_submissions / enter / wake_blocked_futures / "
-    "Config::build_sys / poll_inner: (R1) slot deref, fill call, fence and tail store lie inside the "
-    "submissions_lock guard's live region; (R2) the fill is dominated by the has-room edge of a "
-    "comparison whose taken edge implies distance(tail,head) < len, with head loaded before tail inside "
-    "the lock; (R3) fill -> tail store order, index = tail & (len-1), new tail = wrapping_add(tail,1), "
-    "orderings >= Acquire/Release; (R4) the only store to the SQ tail is in add, none to the head; "
-    "(R5) ring counters only flow into wrap-safe operations (counter typestate); (R6) "
-    "IORING_SETUP_NO_SQARRAY is set unconditionally; (R7) QueueFull leads to wait_for_submission + Pending. "
-    "It does not decide the kernel's side of the protocol nor hardware ordering beyond presence/order of "
-    "fence and Release store."
+    'Decides structural necessary conditions of SQ integrity on every CFG path of Submissions::add / '
+    'Shared::unsubmitted_submissions / enter / wake_blocked_futures / Config::build_sys / poll_inner: (R1) '
+    "slot deref, fill call, fence and tail store lie inside the submissions_lock guard's must-hold region (not "
+    'reachable from the entry, or from behind a release, without passing the lock call — a lock taken on one '
+    'branch only holds nowhere after the join); (R2) the fill is dominated by the has-room edge of a '
+    'comparison whose taken edge implies distance(tail,head) < len, with head loaded before tail inside the '
+    'lock; (R3) fill -> tail store order, index = tail & (len-1), new tail = wrapping_add(tail,1), orderings '
+    '>= Acquire/Release; (R4) the only store to the SQ tail is in add, none to the head; (R5) ring counters '
+    'only flow into wrap-safe operations (counter typestate); (R6) IORING_SETUP_NO_SQARRAY is set '
+    "unconditionally; (R7) QueueFull leads to wait_for_submission + Pending. It does not decide the kernel's "
+    'side of the protocol nor hardware ordering beyond presence/order of fence and Release store.'
 )
 NOT_DECIDED = "kernel side of the SQ protocol; all-interleavings behaviour (only lock-region and guard structure are decided)"
 ASSUMPTIONS = ["std::sync::Mutex provides mutual exclusion", "kernel consumes entries in [head, tail) only"]
